@@ -43,6 +43,14 @@ def REF(cls=None):
     return FT("ref", cls)
 
 
+def RECORD(**fields):
+    """Optional[dict] with a fixed set of string keys, stored flattened on the owning object: field 'X' of kind record with keys k1.. becomes the
+    heap fields 'X.k1', .. plus the flag 'X.#none' (dict identity is not modelled: the dict is never shared between objects)"""
+    t = FT("record")
+    t.fields = fields
+    return t
+
+
 def REFSEQ(cls=None):
     return FT("refseq", cls)
 
@@ -234,6 +242,27 @@ class VRefSeq(V):
 class VTuple(V):
     def __init__(self, items):
         self.items = list(items)
+
+
+class VRecord(V):
+    """handle on a flattened dict-valued field of an object"""
+
+    def __init__(self, ref, field, t):
+        self.ref, self.field, self.t = ref, field, t
+
+
+class VIntMap(V):
+    """python dict with integer keys and numeric values, keys symbolic: value array + domain array"""
+
+    def __init__(self, a, dom):
+        self.arr, self.dom = a, dom
+
+
+class VSeqOf(V):
+    """a sequence of symbolic length whose item i is the value fn(i) (any V): lists of arrays / records handed to a function"""
+
+    def __init__(self, fn, n, key=None):
+        self.fn, self.len, self.key = fn, n, key        # key: identity of the sequence (names the first-index function of list.index)
 
 
 class VPySet(V):
@@ -499,6 +528,11 @@ class Engine:
         for c in self.repo.mro(cls) if cls in self.repo.classes else [cls]:
             if c in self.schema and field in self.schema[c]:
                 return self.schema[c][field]
+            if "." in field and c in self.schema:        # component of a flattened record field
+                base, key = field.split(".", 1)
+                t = self.schema[c].get(base)
+                if t is not None and t.kind == "record":
+                    return BOOL if key == "#none" else t.fields.get(key)
         return None
 
     def alloc(self, st, name, cls):
@@ -531,6 +565,8 @@ class Engine:
         if t is None:
             raise Unsupported(f"no schema for {ref.cls}.{field}")
         k = t.kind
+        if k == "record":
+            return VRecord(ref, field, t)
         if k in ("num", "int"):
             return VNum(sel(st.h(field, k), ref.e))
         if k == "optnum":
@@ -573,6 +609,16 @@ class Engine:
         if t is None:
             raise Unsupported(f"no schema for {ref.cls}.{field}")
         k = t.kind
+        if k == "record":
+            if isinstance(v, VNone):
+                self.write_field(st, ref, field + ".#none", VBool(z3.BoolVal(True)))
+                return
+            if not isinstance(v, VDict) or set(v.d) != set(t.fields):
+                raise Unsupported(f"store into record field {field}: keys {sorted(getattr(v, 'd', {}))} vs {sorted(t.fields)}")
+            self.write_field(st, ref, field + ".#none", VBool(z3.BoolVal(False)))
+            for key, val in v.d.items():
+                self.write_field(st, ref, field + "." + key, val)
+            return
         if k in ("num", "int"):
             st.set_h(field, k, "", z3.Store(st.h(field, k), ref.e, v.e if k == "int" else v.real()))
         elif k == "optseq":
@@ -690,7 +736,16 @@ class Engine:
                     t = e.arg(pos)
                     if not any(z3.is_var(x) for x in self._subterms(t)):
                         u = z3.simplify(t - 1)
-                        hints.append(mk(e, u))
+                        bound = [q_ for q_ in range(e.num_args()) if q_ != pos and any(z3.is_var(x) for x in self._subterms(e.arg(q_)))]
+                        if not bound:
+                            hints.append(mk(e, u))
+                        else:       # the occurrence sits under a quantifier: unfold for ALL values of the arguments that mention bound variables
+                            key = (d, t.get_id(), tuple((q_, e.arg(q_).get_id()) for q_ in range(e.num_args()) if q_ != pos and q_ not in bound), tuple(bound))
+                            if key not in seen:
+                                seen.add(key)
+                                xs = {q_: z3.Const(f"x!unf{q_}", e.arg(q_).sort()) for q_ in bound}
+                                e2 = e.decl()(*[xs[q_] if q_ in xs else e.arg(q_) for q_ in range(e.num_args())])
+                                hints.append(z3.ForAll(list(xs.values()), mk(e2, u), patterns=[e2]))
                 for c in e.children():
                     walk(c)
 
@@ -836,6 +891,26 @@ class Engine:
             raise Unsupported("comprehension " + ast.unparse(n))
         g = n.generators[0]
         it = self.ev(g.iter, st)
+        if isinstance(it, (VSeq, VRefSeq, VSeqOf)):
+            # [elt for x in seq] over a sequence of symbolic length, elt numeric and effect-free: evaluated once at an arbitrary position kk
+            # (its obligations then hold for every position), the result is the array k -> elt[kk := k]
+            kk = fresh("kk!comp", I)
+            s2 = st.copy().assume(z3.And(0 <= kk, kk < self.iter_len(it)))
+            self.store(g.target, self.iter_item(it, kk), s2)
+            saved_cur = self._cur
+            self._cur = s2
+            elt = self.ev(n.elt, s2)
+            self._cur = saved_cur
+            if not isinstance(elt, (VNum, VBool)):
+                raise Unsupported("comprehension element is not a number: " + ast.unparse(n))
+            for a_ in s2.pc[len(st.pc):][1:]:          # facts learned about the element (e.g. what list.index returned): hold for every position
+                q_ = z3.Int("q!comp")
+                st.assume(z3.ForAll([q_], z3.Implies(z3.And(0 <= q_, q_ < self.iter_len(it)), z3.substitute(a_, (kk, q_)))))
+            if isinstance(elt, VBool):
+                bterm = elt.e
+                return VBoolSeq(lambda k_: z3.substitute(bterm, (kk, k_ if k_.sort() == I else z3.ToInt(k_))), self.iter_len(it))
+            term = elt.real()
+            return VSeq(FnArr(lambda k_: z3.substitute(term, (kk, k_ if k_.sort() == I else z3.ToInt(k_)))), self.iter_len(it))
         if not isinstance(it, VTuple):
             raise Unsupported("comprehension over non-concrete iterable " + ast.unparse(n))
         out = []
@@ -935,6 +1010,8 @@ class Engine:
         if isinstance(base, VPySet) and n.attr in ("issubset", "issuperset", "union", "intersection", "difference"):
             return VBound(base, n.attr)
         if isinstance(base, VTuple) and n.attr in ("index", "append", "copy", "count"):
+            return VBound(base, n.attr)
+        if isinstance(base, VSeqOf) and n.attr in ("values", "index"):
             return VBound(base, n.attr)
         if n.attr == "dot" and getattr(self, "dot_model", None) is not None and not isinstance(base, (VRef, VLib)):
             return VBound(base, "dot")
@@ -1071,6 +1148,8 @@ class Engine:
                 for _ in range(k - 1):
                     r = r * a.e
                 return VNum(r)
+        if isinstance(op, ast.Mult) and isinstance(a, VTuple) and isinstance(b, VNum) and z3.is_int_value(z3.simplify(b.e)):      # python tuple repetition
+            return VTuple(list(a.items) * z3.simplify(b.e).as_long())
         # elementwise on sequences (numpy broadcasting: seq (op) seq of equal length, seq (op) scalar)
         if isinstance(a, VSeq) or isinstance(b, VSeq):
             ln = a.len if isinstance(a, VSeq) else b.len
@@ -1079,6 +1158,8 @@ class Engine:
             return VSeq(FnArr(lambda k_: self.binop(op, VNum(a.arr[k_]) if isinstance(a, VSeq) else a, VNum(b.arr[k_]) if isinstance(b, VSeq) else b).real()), ln)
         if isinstance(a, VMat) or isinstance(b, VMat):
             m = a if isinstance(a, VMat) else b
+            if isinstance(a, VMat) and isinstance(b, VMat) and n is not None:
+                self.oblige("pre@broadcast2d:" + ast.unparse(n)[:60], self._cur, z3.And(a.rows == b.rows, a.cols == b.cols))
             return VMat(FnArr(lambda i_: FnArr(lambda j_: self.binop(op, VNum(a.arr[i_][j_]) if isinstance(a, VMat) else a, VNum(b.arr[i_][j_]) if isinstance(b, VMat) else b).real())), m.rows, m.cols)
         raise Unsupported("binop " + (ast.unparse(n) if n else str(op)))
 
@@ -1099,6 +1180,12 @@ class Engine:
                 continue
             if isinstance(op, (ast.In, ast.NotIn)) and isinstance(right, VTuple) and isinstance(left, VNum) and all(isinstance(q_, VNum) for q_ in right.items):
                 c = z3.Or([z3.BoolVal(False)] + [num_pair(left, q_)[0] == num_pair(left, q_)[1] for q_ in right.items])
+                conj.append(c if isinstance(op, ast.In) else z3.Not(c))
+                left = right
+                continue
+            if isinstance(op, (ast.In, ast.NotIn)) and isinstance(right, VSeqOf) and isinstance(left, VName):
+                q_ = z3.Int("q!in")
+                c = z3.Exists([q_], z3.And(0 <= q_, q_ < right.len, right.fn(q_).e == left.e))
                 conj.append(c if isinstance(op, ast.In) else z3.Not(c))
                 left = right
                 continue
@@ -1128,6 +1215,8 @@ class Engine:
                         c = left.none
                     elif type(left).__name__ == "VOptTerm":
                         c = left.none
+                    elif isinstance(left, VRecord):
+                        c = self.read_field(st, left.ref, left.field + ".#none").e
                     elif isinstance(left, (VNum, VTuple, VSeq, VMat, VBool, VDict)):
                         c = z3.BoolVal(False)
                     elif isinstance(left, VCallRef):
@@ -1146,6 +1235,8 @@ class Engine:
                 conj.append({ast.Lt: x < y, ast.LtE: x <= y, ast.Gt: x > y, ast.GtE: x >= y, ast.Eq: x == y, ast.NotEq: x != y}[type(op)])
             elif isinstance(left, VStr) and isinstance(right, VStr):
                 conj.append(z3.BoolVal({ast.Eq: left.s == right.s, ast.NotEq: left.s != right.s}[type(op)]))
+            elif isinstance(left, VName) and isinstance(right, VName) and isinstance(op, (ast.Eq, ast.NotEq)):
+                conj.append(left.e == right.e if isinstance(op, ast.Eq) else left.e != right.e)
             elif isinstance(left, VTuple) and isinstance(right, VTuple) and isinstance(op, (ast.Eq, ast.NotEq)) and all(isinstance(q_, (VNum, VNone)) for q_ in left.items + right.items) and any(isinstance(q_, VNone) for q_ in left.items + right.items):
                 parts = [z3.BoolVal(len(left.items) == len(right.items))]
                 for a_, b_ in zip(left.items, right.items):
@@ -1182,6 +1273,14 @@ class Engine:
             return length + i
         return i
 
+    def slice_bounds(self, sl, length, st):
+        if sl.step is not None:
+            raise Unsupported("slice step")
+        def ix(node):
+            v_ = self.ev(node, st)
+            return self.norm_index(v_.e if v_.is_int else z3.ToInt(v_.e), length)
+        return (ix(sl.lower) if sl.lower is not None else z3.IntVal(0)), (ix(sl.upper) if sl.upper is not None else length)
+
     def ev_Subscript(self, n, st):
         base = self.ev(n.value, st)
         if getattr(self, "subscript_hook", None) is not None:       # contract-module model for an indexing form the core does not know (listed as trusted)
@@ -1193,6 +1292,9 @@ class Engine:
             if k not in base.d:
                 raise Unsupported("KeyError path on concrete dict: " + str(k))
             return base.d[k]
+        if isinstance(base, VRecord) and isinstance(n.slice, ast.Constant) and isinstance(n.slice.value, str):
+            self.oblige("pre@not-None:" + ast.unparse(n)[:50], st, z3.Not(self.read_field(st, base.ref, base.field + ".#none").e))
+            return self.read_field(st, base.ref, base.field + "." + n.slice.value)
         if isinstance(base, VRef) and isinstance(n.slice, ast.Constant) and isinstance(n.slice.value, str):
             return self.read_field(st, base, n.slice.value)  # dict-with-fixed-keys entry modelled as a record
         if isinstance(base, VTuple):
@@ -1211,8 +1313,34 @@ class Engine:
                 return VSeq(FnArr(lambda k_: base.arr[z3.ToInt(ia.arr[k_])][z3.ToInt(ja.arr[k_])]), ia.len)
             if isinstance(ia, VNum) and isinstance(ja, VNum):
                 return VNum(base.arr[ia.e if ia.is_int else z3.ToInt(ia.e)][ja.e if ja.is_int else z3.ToInt(ja.e)])
+        if isinstance(base, VIntMap):
+            k_ = self.ev(n.slice, st)
+            ke = k_.e if k_.is_int else z3.ToInt(k_.e)
+            self.oblige("pre@key:" + ast.unparse(n), st, base.dom[ke])
+            return VNum(base.arr[ke])
+        if isinstance(base, VSeqOf) and not isinstance(n.slice, (ast.Slice, ast.Tuple)):
+            idx = self.ev(n.slice, st)
+            i_ = self.norm_index(idx.e if idx.is_int else z3.ToInt(idx.e), base.len)
+            self.oblige("pre@index:" + ast.unparse(n), st, z3.And(i_ >= 0, i_ < base.len))
+            return base.fn(i_)
+        if isinstance(base, VMat) and isinstance(n.slice, ast.Tuple) and len(n.slice.elts) == 2 and all(isinstance(q_, ast.Slice) for q_ in n.slice.elts):
+            (r0, r1), (c0, c1) = self.slice_bounds(n.slice.elts[0], base.rows, st), self.slice_bounds(n.slice.elts[1], base.cols, st)      # M[r0:r1, c0:c1]
+            self.oblige("pre@block:" + ast.unparse(n), st, z3.And(0 <= r0, r0 <= r1, r1 <= base.rows, 0 <= c0, c0 <= c1, c1 <= base.cols))
+            return VMat(FnArr(lambda i_: FnArr(lambda j_: base.arr[i_ + r0][j_ + c0])), r1 - r0, c1 - c0)
+        if isinstance(base, VMat) and isinstance(n.slice, ast.Tuple) and len(n.slice.elts) == 2 and isinstance(n.slice.elts[0], ast.Slice) and not isinstance(n.slice.elts[1], ast.Slice) \
+                and n.slice.elts[0].lower is None and n.slice.elts[0].upper is None and n.slice.elts[0].step is None:
+            ix_ = self.ev(n.slice.elts[1], st)
+            if isinstance(ix_, VSeq):          # M[:, index_array]: column selection
+                q_ = z3.Int("q!colsel")
+                self.oblige("pre@fancy-cols:" + ast.unparse(n)[:60], st, z3.ForAll([q_], z3.Implies(z3.And(0 <= q_, q_ < ix_.len), z3.And(0 <= z3.ToInt(ix_.arr[q_]), z3.ToInt(ix_.arr[q_]) < base.cols))))
+                return VMat(FnArr(lambda i_: FnArr(lambda j_: base.arr[i_][z3.ToInt(ix_.arr[j_])])), base.rows, ix_.len)
         if isinstance(base, VMat) and not isinstance(n.slice, (ast.Slice, ast.Tuple)):
-            r_ = self.ev(n.slice, st).e
+            ix_ = self.ev(n.slice, st)
+            if isinstance(ix_, VSeq):          # M[index_array]: row selection
+                q_ = z3.Int("q!rowsel")
+                self.oblige("pre@fancy-rows:" + ast.unparse(n)[:60], st, z3.ForAll([q_], z3.Implies(z3.And(0 <= q_, q_ < ix_.len), z3.And(0 <= z3.ToInt(ix_.arr[q_]), z3.ToInt(ix_.arr[q_]) < base.rows))))
+                return VMat(FnArr(lambda i_: FnArr(lambda j_: base.arr[z3.ToInt(ix_.arr[i_])][j_])), ix_.len, base.cols)
+            r_ = ix_.e
             self.oblige("pre@row-index:" + ast.unparse(n), st, z3.And(0 <= r_, r_ < base.rows))
             return VSeq(FnArr(lambda k_: base.arr[r_][k_]), base.cols)
         if isinstance(base, (VSeq, VRefSeq)):
@@ -1280,6 +1408,19 @@ class Engine:
         if isinstance(f, VCallRef):
             self.oblige("pre@callable:" + ast.unparse(n)[:40], st, f.kind == 2)
             return self.read_field(st, VRef(f.owner, self.callref_owner_cls), self.callref_owner_field)
+        if isinstance(f, VBound) and isinstance(f.recv, VSeqOf) and f.name == "index" and isinstance(args[0], VName):
+            sq = f.recv                          # list.index(x): first position holding x, ValueError if absent
+            if sq.key is None:
+                raise Unsupported("index() on a sequence without identity")
+            fi = z3.Function("first_index!" + str(sq.key), Name, I)
+            q_ = z3.Int("q!idx")
+            present = z3.Exists([q_], z3.And(0 <= q_, q_ < sq.len, sq.fn(q_).e == args[0].e))
+            self.oblige("pre@present(ValueError otherwise):" + ast.unparse(n)[:50], st, present)
+            p_ = fi(args[0].e)
+            st.assume(z3.And(0 <= p_, p_ < sq.len, sq.fn(p_).e == args[0].e, z3.ForAll([q_], z3.Implies(z3.And(0 <= q_, q_ < p_), sq.fn(q_).e != args[0].e))))
+            return VNum(p_)
+        if isinstance(f, VBound) and isinstance(f.recv, VSeqOf) and f.name == "values":       # dict whose keys play no role: its values in order
+            return f.recv
         if isinstance(f, VBound) and isinstance(f.recv, VNameMap):
             m_ = f.recv
             if f.name == "values":
@@ -1354,6 +1495,12 @@ class Engine:
             if f.name in ("copy", "values") and not isinstance(f.recv, VRef):
                 return f.recv  # ndarray.copy(): same value, fresh identity (values are immutable terms here); dict.values(): the entry sequence
             if isinstance(f.recv, VSeq) and f.name == "append":
+                if isinstance(n.func.value, ast.Name) and f.recv.pylist and isinstance(args[0], VNum):       # local python list of numbers
+                    old = f.recv
+                    new = VSeq(z3.Store(materialise(old.arr), old.len, args[0].real()), old.len + 1)
+                    new.pylist = True
+                    st.locals[n.func.value.id] = new
+                    return VNone()
                 raise Unsupported("append on non-field list")
             return self.call_method(st, f.recv, f.name, args, kw, node=n, after=getattr(f, "after", None))
         raise Unsupported("call " + ast.unparse(n.func))
@@ -1587,6 +1734,15 @@ class Engine:
 
     def store(self, t, v, st):
         if isinstance(t, ast.Name):
+            lm = getattr(self, "local_models", {}).get(t.id)        # sidecar note: this local list / dict grows inside a loop -> symbolic representation
+            if lm == "seq" and isinstance(v, VTuple) and all(isinstance(q_, VNum) for q_ in v.items):
+                a_ = z3.K(I, z3.RealVal(0))
+                for q_, it_ in enumerate(v.items):
+                    a_ = z3.Store(a_, q_, it_.real())
+                v = VSeq(a_, z3.IntVal(len(v.items)))
+                v.pylist = True
+            elif lm == "intmap" and isinstance(v, VDict) and not v.d:
+                v = VIntMap(z3.K(I, z3.IntVal(0)), z3.K(I, z3.BoolVal(False)))
             st.locals[t.id] = v
         elif isinstance(t, (ast.Tuple, ast.List)):
             if not isinstance(v, VTuple) or len(v.items) != len(t.elts):
@@ -1627,9 +1783,14 @@ class Engine:
             if not z3.is_int_value(idx):
                 raise Unsupported("store into python list at symbolic index: " + ast.unparse(t))
             self.ev(t.value, st).items[idx.as_long()] = v
+        elif isinstance(t, ast.Subscript) and isinstance(self.ev(t.value, st), VIntMap):
+            m_, k_ = self.ev(t.value, st), self.ev(t.slice, st)
+            ke = k_.e if k_.is_int else z3.ToInt(k_.e)
+            ve = v.e if v.is_int else z3.ToInt(v.e)
+            self.store(t.value, VIntMap(z3.Store(m_.arr, ke, ve), z3.Store(m_.dom, ke, z3.BoolVal(True))), st)
         elif isinstance(t, ast.Subscript) and isinstance(self.ev(t.value, st), VDict):
             self.ev(t.value, st).d[self.key_of(self.ev(t.slice, st))] = v
-        elif isinstance(t, ast.Subscript) and isinstance(t.slice, ast.Tuple) and len(t.slice.elts) == 2 and isinstance(t.slice.elts[1], ast.Slice) and isinstance(self.ev(t.value, st), VMat):
+        elif isinstance(t, ast.Subscript) and isinstance(t.slice, ast.Tuple) and len(t.slice.elts) == 2 and isinstance(t.slice.elts[1], ast.Slice) and not isinstance(t.slice.elts[0], ast.Slice) and isinstance(self.ev(t.value, st), VMat):
             M_ = self.ev(t.value, st)      # M[r, lo:hi] = v   (row (slice) assignment)
             r_ = self.ev(t.slice.elts[0], st).e
             if r_.sort() == R:
@@ -1647,6 +1808,16 @@ class Engine:
                 self.oblige("pre@row-store-shape:" + ast.unparse(t), st, v.len == hi_ - lo_)
             rowv = (lambda j_: v.arr[j_ - lo_]) if isinstance(v, VSeq) else (lambda j_: v.real())
             self.store(t.value, VMat(FnArr(lambda i_: FnArr(lambda j_: z3.If(z3.And(i_ == r_, lo_ <= j_, j_ < hi_), rowv(j_), M_.arr[i_][j_]))), M_.rows, M_.cols), st)
+        elif isinstance(t, ast.Subscript) and isinstance(t.slice, ast.Tuple) and len(t.slice.elts) == 2 and all(isinstance(q_, ast.Slice) for q_ in t.slice.elts) and isinstance(self.ev(t.value, st), VMat):
+            M_ = self.ev(t.value, st)      # M[r0:r1, c0:c1] = v   (block assignment; numpy raises unless the shapes agree or v is a scalar)
+            (r0, r1), (c0, c1) = self.slice_bounds(t.slice.elts[0], M_.rows, st), self.slice_bounds(t.slice.elts[1], M_.cols, st)
+            self.oblige("pre@block-store:" + ast.unparse(t), st, z3.And(0 <= r0, r0 <= r1, r1 <= M_.rows, 0 <= c0, c0 <= c1, c1 <= M_.cols))
+            if isinstance(v, VMat):
+                self.oblige("pre@block-store-shape:" + ast.unparse(t), st, z3.And(v.rows == r1 - r0, v.cols == c1 - c0))
+                val = lambda i_, j_: v.arr[i_ - r0][j_ - c0]
+            else:
+                val = lambda i_, j_: v.real()
+            self.store(t.value, VMat(FnArr(lambda i_: FnArr(lambda j_: z3.If(z3.And(r0 <= i_, i_ < r1, c0 <= j_, j_ < c1), val(i_, j_), M_.arr[i_][j_]))), M_.rows, M_.cols), st)
         elif isinstance(t, ast.Subscript) and not isinstance(t.slice, (ast.Tuple, ast.Slice)) and isinstance(self.ev(t.value, st), VMat):
             M_ = self.ev(t.value, st)      # M[r] = v
             r_ = self.ev(t.slice, st).e
@@ -1744,11 +1915,15 @@ class Engine:
         if isinstance(v, VNum):
             return VNum(fresh(name, v.e.sort()))
         if isinstance(v, VSeq):
-            return VSeq(fresh(name, arr(I, R)), fresh(name + "_len", I))
+            r_ = VSeq(fresh(name, arr(I, R)), fresh(name + "_len", I))
+            r_.pylist = v.pylist
+            return r_
         if isinstance(v, VMat):
             return VMat(fresh(name, arr(I, I, R)), v.rows, v.cols)
         if isinstance(v, VBool):
             return VBool(fresh(name, B))
+        if isinstance(v, VIntMap):
+            return VIntMap(fresh(name, arr(I, I)), fresh(name + "_dom", arr(I, B)))
         return v
 
     def callee_effects(self, body, depth=0, seen=None, self_cls=None):
@@ -1770,6 +1945,10 @@ class Engine:
                     if isinstance(flds, dict) and x.attr in flds and not (isinstance(x.value, ast.Name) and x.value.id == "self"):
                         t = flds[x.attr]
                         out |= {(x.attr, t.kind, part) for part in HEAP_SORTS.get(t.kind, {})}
+                        if t.kind == "record":
+                            out.add((x.attr + ".#none", "bool", ""))
+                            for key_, ft_ in t.fields.items():
+                                out |= {(x.attr + "." + key_, ft_.kind, part) for part in HEAP_SORTS.get(ft_.kind, {})}
             elif isinstance(x, ast.Attribute) and isinstance(x.ctx, ast.Load):
                 names.add((x.attr, "getter"))
                 if not is_self(x.value):
@@ -1850,7 +2029,7 @@ class Engine:
         return exits
 
     def iter_len(self, it):
-        if isinstance(it, (VSeq, VRefSeq)):
+        if isinstance(it, (VSeq, VRefSeq, VSeqOf)):
             return it.len
         if isinstance(it, VZip):
             r = self.iter_len(it.parts[0])
@@ -1869,6 +2048,8 @@ class Engine:
             return VNum(it.arr[i])
         if isinstance(it, VRefSeq):
             return VRef(it.arr[i], it.cls)
+        if isinstance(it, VSeqOf):
+            return it.fn(i)
         if isinstance(it, VZip):
             return VTuple([self.iter_item(p_, i) for p_ in it.parts])
         if isinstance(it, VEnum):
@@ -1927,12 +2108,62 @@ class Engine:
         return exits
 
     # ---- verification entry point
-    def verify(self, cls, name, kind=None, init=None, contract=None, tag=None):
+    MUTATORS = {"append", "extend", "pop", "update", "clear", "insert", "remove", "sort", "setdefault", "popitem", "reverse", "add", "discard"}
+
+    def slice_body(self, body, names):
+        """program slice of a statement list on a set of LOCAL names: simple statements that do not mention any tracked name are dropped
+        (a local can only change through a statement that names it; closures are checked separately), control flow is kept.
+        The slice proves: IF the method completes normally THEN ... (exceptions of dropped statements are not modelled)."""
+        def mentions(x):
+            return any(isinstance(y, ast.Name) and y.id in names for y in ast.walk(x))
+        out = []
+        for s_ in body:
+            if isinstance(s_, (ast.FunctionDef, ast.Import, ast.ImportFrom, ast.Pass)):
+                if isinstance(s_, ast.FunctionDef):
+                    for y in ast.walk(s_):
+                        bad = (isinstance(y, ast.Name) and y.id in names and isinstance(y.ctx, (ast.Store, ast.Del))) or isinstance(y, (ast.Nonlocal, ast.Global)) or \
+                              (isinstance(y, ast.Subscript) and isinstance(y.ctx, ast.Store) and mentions(y.value)) or \
+                              (isinstance(y, ast.Call) and isinstance(y.func, ast.Attribute) and y.func.attr in self.MUTATORS and mentions(y.func.value))
+                        if bad:
+                            raise Unsupported(f"slice: nested function {s_.name} may modify a tracked local")
+                continue
+            if isinstance(s_, ast.If):
+                b_, o_ = self.slice_body(s_.body, names), self.slice_body(s_.orelse, names)
+                if not b_ and not o_:
+                    continue
+                out.append(ast.copy_location(ast.If(test=s_.test, body=b_ or [ast.Pass()], orelse=o_), s_))
+            elif isinstance(s_, (ast.For, ast.While)):
+                b_ = self.slice_body(s_.body, names)
+                if not b_ and not s_.orelse:
+                    if isinstance(s_, ast.For) and any(isinstance(y, ast.Name) and y.id in names for y in ast.walk(s_.target)):
+                        raise Unsupported("slice: loop target is a tracked local")
+                    continue
+                s_.body = b_ or [ast.Pass()]     # loop nodes keep their identity (loop ordinals refer to them)
+                out.append(s_)
+            elif isinstance(s_, (ast.Return, ast.Raise, ast.Break, ast.Continue, ast.Try, ast.With, ast.Assert)):
+                out.append(s_)
+            elif mentions(s_):
+                out.append(s_)
+        return out
+
+    def verify(self, cls, name, kind=None, init=None, contract=None, tag=None, nested=None, slice_on=None):
         """verify the REAL body of cls.name against `contract` (default: the registered one); obligations are appended
         to self.obligations with ids '<Class>.<name>[<kind>]<tag>/<obligation>'"""
         owner, fdef = self.repo.find(cls, name, kind, include_static=True)
         if fdef is None:
             raise Unsupported(f"function not found: {cls}.{name} [{kind}]")
+        outer_params = [a.arg for a in fdef.args.args]
+        if nested is not None:          # a function defined inside the method (closure): verified with its free variables supplied by `init`
+            inner = [y for y in ast.walk(fdef) if isinstance(y, ast.FunctionDef) and y.name == nested and y is not fdef]
+            if len(inner) != 1:
+                raise Unsupported(f"nested function {nested} not found (or not unique) in {cls}.{name}")
+            fdef = inner[0]
+        if slice_on:
+            import copy as _copy
+            fdef = _copy.deepcopy(fdef)
+            kept = self.slice_body(fdef.body, set(slice_on))
+            self.extraction_notes = getattr(self, "extraction_notes", []) + [f"{cls}.{name}: sliced on locals {sorted(slice_on)}: {len(kept)} top-level statements kept; statements not naming these locals dropped"]
+            fdef.body = kept
         if contract is not None:
             c = contract
         else:
@@ -1940,12 +2171,16 @@ class Engine:
         loops = [y for y in ast.walk(fdef) if isinstance(y, (ast.While, ast.For))]
         loops.sort(key=lambda y: (y.lineno, y.col_offset))
         self.cur_loops = {"ids": {id(x): i for i, x in enumerate(loops)}, "inv": c.loops}
-        fid = f"{cls}.{name}" + (f"[{kind}]" if kind else "") + (tag or "")
+        fid = f"{cls}.{name}" + (f".{nested}" if nested else "") + (f"[{kind}]" if kind else "") + (tag or "")
         st = State()
         static = any(ast.unparse(d) == "staticmethod" for d in fdef.decorator_list) or cls.startswith("@")
         params = [a.arg for a in fdef.args.args]
         me = None
-        if not static:
+        if nested is not None and not cls.startswith("@"):
+            me = VRef(z3.Const("self", Ref), cls)
+            st.assume(z3.And(me.e != NULL, ALIVE0(me.e)))
+            st.locals[outer_params[0]] = me
+        elif not static:
             me = VRef(z3.Const("self", Ref), cls)
             st.assume(z3.And(me.e != NULL, ALIVE0(me.e)))
             st.locals[params[0]] = me
@@ -1990,7 +2225,7 @@ class Engine:
         self._prefix = ""
         path = self.repo.classes[owner][0]
         seg = ast.get_source_segment(self.repo.files[path][0], fdef)
-        self.functions.append({"path": path, "qualname": f"{owner}.{name}" + (f" [{kind}]" if kind else ""), "verified_as": cls,
+        self.functions.append({"path": path, "qualname": f"{owner}.{name}" + (f".<locals>.{nested}" if nested else "") + (f" [{kind}]" if kind else ""), "verified_as": cls,
                                "sha256": hashlib.sha256(seg.encode()).hexdigest(), "exit_paths": [f for _, f, _ in outs],
                                "obligations": len(self.obligations) - n0})
         return self.repo.sha(owner, fdef), [(f, v if isinstance(v, str) else None) for _, f, v in outs], len(self.obligations) - n0
